@@ -1,4 +1,5 @@
 """C10 - encoders never emit bytes that decode to a different value."""
+import array
 import datetime
 import decimal
 import math
@@ -48,8 +49,17 @@ INTS = sorted({0, 1, -1, 2, 9, 255, 256, 10**30, -10**30} |
 FLOATS = [0.0, -0.0, 1.5, -1.5, float('nan'), float('inf'), float('-inf'),
           1e39, -1e39, 1e-50, 3.4028234663852886e+38, 3.4028235677973366e+38,
           2.0**128, 0.1, 16777217.0]
+# buffer objects: their len() counts ITEMS, their content is bytes
+BUFFERS = [memoryview(b'ab\xce\xce'), memoryview(bytearray(b'ab\xce\xce')),
+           memoryview(array.array('H', b'ab\xce\xce')),
+           memoryview(array.array('I', b'ab\xce\xce' * 2)),
+           memoryview(b'ab\xce\xceab\xce\xce').cast('H'),
+           memoryview(bytearray(b'ab\xce\xce') * 4).cast('Q'),
+           array.array('B', b'ab\xce\xce'), array.array('H', b'ab\xce\xce'),
+           array.array('d', [1.5, -2.0]), memoryview(b''),
+           memoryview(b'abcdef')[::2]]
 WRONG = [None, b'bytes', 5, 1.5, [], {}, (), True, 'str', object,
-         bytearray(b'x'), D('1')]
+         bytearray(b'x'), D('1')] + BUFFERS
 STRINGS = ['', 'a', 'a' * 255, 'a' * 256, 'é' * 127 + 'a', 'é' * 128,
            '\x00', '\ud800', 'a' * 65536, '\U0001F600' * 64]
 LONGSTRINGS = STRINGS + ['a' * 70000]
@@ -152,6 +162,13 @@ def eq(decoded, inp):
             all(eq(a, b) for a, b in zip(decoded, inp))
     if inp is None:
         return decoded is None
+    if isinstance(inp, (memoryview, array.array)):
+        # normalised input of a buffer object: the bytes it holds
+        try:
+            return isinstance(decoded, (bytes, bytearray)) and \
+                bytes(decoded) == inp.tobytes()
+        except Exception:  # noqa
+            return False
     try:
         return bool(decoded == inp)
     except Exception:  # noqa
@@ -177,7 +194,7 @@ def judge(ctx, label, value, enc, dec, table_none=False):
     """enc(value) raises, or dec(bytes) == value."""
     case = {'kind': 'encoder', 'label': label, 'value': tojson(value)}
     fp = 'silent|{}|{}'.format(label, short(value, 300))
-    ctx.case((label, repr(value)[:300]), True,
+    ctx.case((label, short(value, 300)), True,
              sample=lambda: {'entry': label, 'value': short(value, 80)})
     try:
         data = enc(value)
@@ -348,7 +365,7 @@ def check_method_arg(ctx, m, idx, value, extra=None):
     case = {'kind': 'method', 'method': m.name, 'idx': idx,
             'value': tojson(value), 'extra': extra and
             [extra[0], tojson(extra[1])]}
-    ctx.case((label, repr(value)[:300], repr(extra)[:100]), True,
+    ctx.case((label, short(value, 300), repr(extra)[:100]), True,
              sample=lambda: {'entry': 'frame.marshal(%s)' % label,
                              'value': short(value, 80)})
     obj = corpus.construct(m, base)
@@ -405,7 +422,7 @@ def check_property(ctx, name, wire_type, value):
     p = lib.pamqp()
     case = {'kind': 'property', 'name': name, 'value': tojson(value)}
     label = 'Basic.Properties.' + name
-    ctx.case((label, repr(value)[:300]), True,
+    ctx.case((label, short(value, 300)), True,
              sample=lambda: {'entry': label, 'value': short(value, 80)})
     props = p.commands.Basic.Properties()
     setattr(props, name, value)
@@ -525,8 +542,9 @@ def check_envelope_args(ctx):
                               'raise or round trip', repr(got))
             else:
                 ctx.outcome('round-trip')
-    for body in (None, 'text', 5, bytearray(b'x'), [1], b''):
-        ctx.case(('body', repr(body)), True)
+    for body in [None, 'text', 5, bytearray(b'x'), [1], b'', [b'ab', b'cd'],
+                 (b'ab',), b'ab\xce\xce'] + BUFFERS:
+        ctx.case(('body', short(body)), True)
         try:
             data = p.frame.marshal(p.body.ContentBody(body), 1)
             ctx.calls()
@@ -536,10 +554,16 @@ def check_envelope_args(ctx):
             continue
         ctx.valid()
         out = lib.unmarshal_outcome(data)
-        if out[0] != 'ok' or out[3].value != body:
-            ctx.violation('silent|body|{!r}'.format(body),
-                          'ContentBody({!r}) was accepted but decodes as '
-                          '{}'.format(body, short(out[1:])),
+        if out[0] != 'ok' or not eq(out[3].value, body) or \
+                out[1] != len(data):
+            shown = short(tojson(body), 200)
+            ctx.violation('silent|body|{}'.format(shown),
+                          'ContentBody({}) was accepted and encoded as {} '
+                          'which decodes as {}'.format(
+                              shown, short(data.hex(), 60),
+                              short((out[1], out[2], getattr(
+                                  out[3], 'value', out[3]))
+                                  if out[0] == 'ok' else out[1:], 200)),
                           {'kind': 'body', 'value': tojson(body)},
                           'raise or round trip', short(out[1:]))
         else:
